@@ -49,6 +49,7 @@ class Tag:
 class Top:
     uid: int = 0
     holder: Holder = None
+    backup: Holder = None
     rank: int = 0
 
     def __repr__(self):
